@@ -367,6 +367,8 @@ def run_check(prop, tier, seed, n=None, jobs=None, budget_s=None, verbose=False)
     groups = {}
     for item in agg['violations']:
         v = item['violation']
+        if v.get('scenario_patch'):
+            item['scenario'] = dict(item['scenario'], **v['scenario_patch'])
         kfs = [k for k in known if kf_match(k, prop, v, item['scenario'])]
         if kfs:
             kf_hit[kfs[0]['id']] = kf_hit.get(kfs[0]['id'], 0) + 1
